@@ -132,6 +132,7 @@ int iv_inotify_register(struct iv_inotify *this)
 	iv_fd_register(&this->fd);
 
 	INIT_IV_AVL_TREE(&this->watches, __iv_inotify_watch_compare);
+	this->term = NULL;
 
 	return 0;
 }
